@@ -226,29 +226,88 @@ func registerProbes() {
 					if w == "ineff" || w == "both" {
 						meta.IneffectiveDate = probeIneff
 					}
-					d2 := d
-					switch kind {
-					case KCert:
-						ctor := func() lint.CertificateLintInterface { return &certProbe{newInst(d2)} }
-						if conf {
-							ctor = func() lint.CertificateLintInterface { return &certProbeC{newInst(d2)} }
-						}
-						lint.RegisterCertificateLint(&lint.CertificateLint{LintMetadata: meta, Lint: ctor})
-					case KCRL:
-						ctor := func() lint.RevocationListLintInterface { return &crlProbe{newInst(d2)} }
-						if conf {
-							ctor = func() lint.RevocationListLintInterface { return &crlProbeC{newInst(d2)} }
-						}
-						lint.RegisterRevocationListLint(&lint.RevocationListLint{LintMetadata: meta, Lint: ctor})
-					case KOCSP:
-						ctor := func() lint.OcspResponseLintInterface { return &ocspProbe{newInst(d2)} }
-						if conf {
-							ctor = func() lint.OcspResponseLintInterface { return &ocspProbeC{newInst(d2)} }
-						}
-						lint.RegisterOcspResponseLint(&lint.OcspResponseLint{LintMetadata: meta, Lint: ctor})
-					}
+					registerProbe(d, meta)
 				}
 			}
 		}
 	}
+}
+
+func registerProbe(d *probeDef, meta lint.LintMetadata) {
+	d2 := d
+	switch d.Kind {
+	case KCert:
+		ctor := func() lint.CertificateLintInterface { return &certProbe{newInst(d2)} }
+		if d.Configurable {
+			ctor = func() lint.CertificateLintInterface { return &certProbeC{newInst(d2)} }
+		}
+		lint.RegisterCertificateLint(&lint.CertificateLint{LintMetadata: meta, Lint: ctor})
+	case KCRL:
+		ctor := func() lint.RevocationListLintInterface { return &crlProbe{newInst(d2)} }
+		if d.Configurable {
+			ctor = func() lint.RevocationListLintInterface { return &crlProbeC{newInst(d2)} }
+		}
+		lint.RegisterRevocationListLint(&lint.RevocationListLint{LintMetadata: meta, Lint: ctor})
+	case KOCSP:
+		ctor := func() lint.OcspResponseLintInterface { return &ocspProbe{newInst(d2)} }
+		if d.Configurable {
+			ctor = func() lint.OcspResponseLintInterface { return &ocspProbeC{newInst(d2)} }
+		}
+		lint.RegisterOcspResponseLint(&lint.OcspResponseLint{LintMetadata: meta, Lint: ctor})
+	}
+}
+
+// Late probes: defined here, but registered (through the same public API) only when a
+// run's history says so - after the registry has been listed, filtered and linted with.
+// Registration at run time is part of the public API; what was looked up or cached
+// before it must not hide the new lint from later listings, filters and runs.
+var lateProbeDefs = func() []*probeDef {
+	var out []*probeDef
+	i := 0
+	for kind := 0; kind < 3; kind++ {
+		for _, v := range []struct {
+			src  lint.LintSource
+			conf bool
+		}{{lint.RFC5280, false}, {lint.Community, true}, {lint.CABFBaselineRequirements, false}} {
+			cn := "plain"
+			if v.conf {
+				cn = "cfg"
+			}
+			out = append(out, &probeDef{Name: fmt.Sprintf("%c_zsimprobe_late_%s_%s_%d", "wne"[i%3], kindNames[kind], cn, i), Kind: kind, Source: v.src, Configurable: v.conf, Window: "none"})
+			i++
+		}
+	}
+	return out
+}()
+
+var lateRegistered = map[string]bool{}
+
+func lateProbeMeta(d *probeDef) lint.LintMetadata {
+	return lint.LintMetadata{Name: d.Name, Description: "zsim late probe lint (registered at run time)", Citation: "zsim", Source: d.Source}
+}
+
+// registerLate registers late probe k in the global registry; false if it already is.
+func registerLate(k int) (d *probeDef, done bool, panicked string) {
+	d = lateProbeDefs[k%len(lateProbeDefs)]
+	if lateRegistered[d.Name] {
+		return d, false, ""
+	}
+	defer func() {
+		if r := recover(); r != nil {
+			panicked = fmt.Sprint(r)
+		}
+	}()
+	probeByName[d.Name] = d
+	registerProbe(d, lateProbeMeta(d))
+	lateRegistered[d.Name] = true
+	return d, true, ""
+}
+
+// addLate adds a late probe to a metadata table (model side of the register op).
+func (t *MetaTable) addLate(d *probeDef) {
+	if _, ok := t.ByName[d.Name]; ok {
+		return
+	}
+	t.ByName[d.Name] = &LintMeta{Name: d.Name, Kind: d.Kind, Source: string(d.Source), Configurable: d.Configurable, Meta: lateProbeMeta(d), Probe: true}
+	t.Names = sortedKeys(t.ByName)
 }
